@@ -11,6 +11,7 @@ import (
 	"os"
 	"reflect"
 	"runtime/debug"
+	"strconv"
 	"strings"
 )
 
@@ -228,7 +229,7 @@ func vRandUnscripted(on bool) { vRandTolerant = on }
 var vInPar bool
 
 func vPar(shared interface{}, a, b func()) {
-	vInPar = true
+	vInPar, rand.VerifBypass = true, true
 	start := make(chan struct{})
 	done := make(chan struct{}, 2)
 	run := func(f func()) {
@@ -241,8 +242,12 @@ func vPar(shared interface{}, a, b func()) {
 	close(start)
 	<-done
 	<-done
-	vInPar = false
+	vInPar, rand.VerifBypass = false, false
 }
+
+// vParallelSection: natively the code between on and off starts real goroutines (go statements of the code under
+// test); math/rand draws inside it are answered by the real generator instead of the script, as in vPar.
+func vParallelSection(on bool) { vInPar, rand.VerifBypass = on, on }
 
 func vRandHook(kind string) (float64, int64) {
 	if vInPar {
@@ -311,6 +316,20 @@ func vRunReplays(entries map[string]func()) {
 					f()
 				}()
 				res.Consumed = vPos
+				// under the race detector the same script is run again a number of times: whether the detector
+				// sees an unsynchronised pair depends on the schedule the runtime happens to pick
+				if n, _ := strconv.Atoi(os.Getenv("VERIF_REPLAY_REPEAT")); n > 1 && res.Panic == "" && res.Diverged == "" {
+					for k := 1; k < n; k++ {
+						scratch := &vReplayResult{File: p}
+						vCur, vPos, vRes = rf, 0, scratch
+						vRandTolerant = false
+						func() {
+							defer func() { recover() }()
+							f()
+						}()
+					}
+					vRes = res
+				}
 			}
 		}
 		out, _ := json.Marshal(res)
